@@ -292,17 +292,17 @@ pub fn can_cast_types(from_type: &DataType, to_type: &DataType) -> bool {
         // end numeric casts
 
         // temporal casts
-        (Int32, Date32 | Date64 | Time32(_)) => true,
+        (Int32, Date32 | Date64 | Time32(Second | Millisecond)) => true,
         (Date32, Int32 | Int64) => true,
         (Time32(_), Int32 | Int64) => true,
-        (Int64, Date64 | Date32 | Time64(_)) => true,
+        (Int64, Date64 | Date32 | Time64(Microsecond | Nanosecond)) => true,
         (Date64, Int64 | Int32) => true,
         (Time64(_), Int64) => true,
         (Date32 | Date64, Date32 | Date64) => true,
         // time casts
-        (Time32(_), Time32(_)) => true,
-        (Time32(_), Time64(_)) => true,
-        (Time64(_), Time64(_)) => true,
+        (Time32(_), Time32(Second | Millisecond)) => true,
+        (Time32(_), Time64(Microsecond | Nanosecond)) => true,
+        (Time64(_), Time64(Microsecond | Nanosecond)) => true,
         (Time64(_), Time32(to_unit)) => {
             matches!(to_unit, Second | Millisecond)
         }
